@@ -433,7 +433,7 @@ def conn_case(args):
     # both sides first write across two record boundaries (2L+1 bytes), then the random schedule
     for me in 'cs':
         L = min(limit[me] - (1 if t13 else 0), user_c if me == 'c' else user_s)
-        n = 2 * L + 1
+        n = 2 * L + 1 if (L <= 1000 or not quick) else L + 1
         if n <= (1500 if small else 33000):
             do_write(me, rand_bytes(rng, n))
     for _ in range(nops):
@@ -663,11 +663,14 @@ def run(ctx):
     if model_ok:
         def shard(n):
             return max(8, (n + 7) // 8)
-        for name, ctype, fn, lits in (
-                ('C01s', 'SendCase', 'chk_send', send_lits), ('C01r', 'RecvCase', 'chk_recv', recv_lits),
-                ('C01f', 'L4Case', 'chk_l4', l4_lits), ('C01b', 'ReadCase', 'chk_read', read_lits),
-                ('C01n', 'LenCase', 'chk_len', len_lits), ('C01m', 'LimCase', 'chk_lim', sorted(set(lim_lits)))):
-            bad, errs = vlib.coq_bad_indices(name, U.IMPORTS, ctype, fn, lits, shard=shard(len(lits)), preamble=L4_PREAMBLE)
+        kinds = (('C01s', 'SendCase', 'chk_send', send_lits), ('C01r', 'RecvCase', 'chk_recv', recv_lits),
+                 ('C01f', 'L4Case', 'chk_l4', l4_lits), ('C01b', 'ReadCase', 'chk_read', read_lits),
+                 ('C01n', 'LenCase', 'chk_len', len_lits), ('C01m', 'LimCase', 'chk_lim', sorted(set(lim_lits))))
+        from multiprocessing.pool import ThreadPool
+        with ThreadPool(3) as tp:          # the evaluations are independent coqc runs: overlap them
+            evals = tp.map(lambda k: vlib.coq_bad_indices(k[0], U.IMPORTS, k[1], k[2], k[3], shard=shard(len(k[3])),
+                                                          preamble=L4_PREAMBLE), kinds)
+        for (name, ctype, fn, lits), (bad, errs) in zip(kinds, evals):
             ctx.count('model-vs-impl:' + fn, len(lits), [(fn, len(lits) - len(bad))])
             for e in errs:
                 tie_broken = 'case evaluation failed (%s): %s' % (fn, e[:300])
